@@ -44,9 +44,9 @@ def plan(tier, seed):
     specs.append({"kind": "interleave", "idx": 99, "flavour": "asan", "budget_s": 25 if q else 150, "timeout_s": 1200})
     for i in range(2 if q else 4):
         specs.append({"kind": "snapshots", "idx": i, "budget_s": 25 if q else 200})
-    trials = 10 if q else 100
-    for part in range(3 if q else 6):
-        specs.append({"kind": "first_use", "part": part, "parts": 3 if q else 6, "trials": trials, "timeout_s": 900 if q else 2400})
+    trials = 32 if q else 200
+    for part in range(8 if q else 12):
+        specs.append({"kind": "first_use", "part": part, "parts": 8 if q else 12, "trials": trials, "timeout_s": 900 if q else 2400})
     return specs
 
 
@@ -679,17 +679,24 @@ if inject and hasattr(sys, "monitoring"):
         if r < 0.35:
             yields[0] += 1
             time.sleep(0)
-        if r < 0.03:
-            time.sleep(0.0005)
+        if r < 0.08:
+            time.sleep(0.0005)          # a longer stall: widens the window in which shared data is half initialised
     mon.register_callback(TOOL, mon.events.LINE, on_line)
     mon.set_events(TOOL, mon.events.LINE)
 import Crypto.PublicKey.ECC as ECC
 results, errors = {}, {}
 barrier = threading.Barrier(nthreads)
 fixed_seed = bytes(range(57))
+stagger = [0.0] * nthreads
+if rng.random() < 0.7:
+    # staggered starts: a late thread makes its first look-up while an early one is still initialising the curve
+    span = rng.choice([0.0003, 0.001, 0.003, 0.01])
+    stagger = [rng.uniform(0, span) for _ in range(nthreads)]
 def body(i):
     try:
         barrier.wait()
+        if stagger[i]:
+            time.sleep(stagger[i])
         if entry == "generate":
             k = ECC.generate(curve=curve, randfunc=random.Random(7).randbytes)
         elif entry == "construct":
@@ -745,7 +752,7 @@ def w_first_use(spec, ctx):
         for ci, cv in enumerate(CURVES):
             if (t * len(CURVES) + ci) % spec["parts"] != spec["part"]:
                 continue
-            jobs.append((cv, entries[(t + ci) % 4], rng.choice([2, 3, 4, 8]), t))
+            jobs.append((cv, entries[(t + ci) % 4], rng.choice([2, 3, 4, 8, 16]), t))
     schedules = set()
     script = os.path.join(os.path.dirname(os.path.abspath(__file__)), "..", ".build", "first_use_child_%d.py" % os.getpid())
     with open(script, "w") as f:
